@@ -304,6 +304,47 @@ def parseRows (s : String) : List (List String) :=
 /-- printable ASCII line (no tabs): its cells are its characters -/
 def asciiLine (l : Line) : Bool := l.all (fun c => 32 ≤ c && c < 127)
 
+/-- the logged operations of the screen update routines against the model's (`Model/Screen.lean`) -/
+def parseOps (body : String) : List Screen.Op :=
+  (body.splitOn ",").filterMap (fun t =>
+    if t.startsWith "R" then
+      match ((t.drop 1).toString.splitOn ":") with
+      | [r, n] => some (Screen.Op.room (intOf r) (intOf n))
+      | _ => none
+    else if t.startsWith "D" then some (Screen.Op.row (intOf (t.drop 1).toString))
+    else none)
+
+def dropNoRoom (l : List Screen.Op) : List Screen.Op :=
+  l.filter (fun o => match o with | Screen.Op.room _ n => n != 0 | _ => true)
+
+def showOps (l : List Screen.Op) : String :=
+  ",".intercalate (l.map (fun o => match o with | Screen.Op.room r n => s!"R{r}:{n}" | Screen.Op.row k => s!"D{k}"))
+
+/-- every logged call of vi_drawagain / vi_drawupdate / vi_drawfix performs exactly the model's operations -/
+def judgeOps (ops : String) (rows : Nat) (xtopNow : Int) : List String × Nat :=
+  if ops == "-" || ops == "" then ([], 0) else
+  (ops.splitOn ";").foldl (fun (acc : List String × Nat) call =>
+    match call.splitOn "[" with
+    | [hd, tl] =>
+      let body := (tl.splitOn "]").headD ""
+      let logged := dropNoRoom (parseOps body)
+      let p := hd.splitOn ":"
+      let k := p.headD ""
+      let a := intOf (p.getD 1 ""); let b := intOf (p.getD 2 ""); let c := intOf (p.getD 3 ""); let d := intOf (p.getD 4 ""); let xt := intOf (p.getD 5 "")
+      let model : Option (List Screen.Op) :=
+        if k == "A" then some (Screen.drawAgainOps rows xt a)
+        else if k == "U" then some (Screen.drawUpdateOps rows a xt)
+        else if k == "F" then some (Screen.drawFixOps rows xt a b c (d != 0))
+        else none
+      let _ := xtopNow
+      match model with
+      | none => acc
+      | some m =>
+        let m := dropNoRoom m
+        if m == logged then (acc.1, acc.2 + 1)
+        else (acc.1 ++ [s!"screen-ops {hd} impl={showOps logged} model={showOps m}"], acc.2 + 1)
+    | _ => acc) ([], 0)
+
 def judge19 (c : Case) : List String × Nat :=
   let bs := c.impl.filter (·.mark == "B")
   let xrows := (c.rows - 1).toNat
@@ -361,7 +402,14 @@ def judge (mode : Nat) (kv : KV) : Verdict :=
     | some r => if r.mark == "Q" then [] else [s!"clause=reaches_the_quit_it_is_given end={r.mark} kpos={r.bd.kpos} of {c.keys.length}"]
     | none => ["clause=reaches_the_quit_it_is_given no result"]
   let (errs, n, m) := if mode == 5 then (quitErr, 0, 0) else if mode == 7 then (let (e, n) := judge07 c; (e, n, 0)) else if mode == 13 then judge13 c else if mode == 19 then (let (e, n) := judge19 c; (e, n, 0)) else ([], 0, 0)
-  { base with specfails := (errs.take 3).map (fun s => (s.take 400).toString),
-              tags := base.tags ++ (List.replicate n "judged") ++ (List.replicate m "found") }
+  -- C19: the screen update routines against Model/Screen.lean (a model-vs-code difference, not a spec failure)
+  let (opDiffs, opCalls) : List String × Nat :=
+    if mode != 19 then ([], 0) else
+    (c.impl.filter (fun r => r.mark == "B" || r.mark == "E")).foldl (fun (acc : List String × Nat) r =>
+      let (e, k) := judgeOps r.ops (c.rows - 1).toNat r.bd.xtop
+      (acc.1 ++ e, acc.2 + k)) ([], 0)
+  { base with diffs := base.diffs ++ opDiffs.take 2,
+              specfails := (errs.take 3).map (fun s => (s.take 400).toString),
+              tags := base.tags ++ (List.replicate n "judged") ++ (List.replicate m "found") ++ (List.replicate opCalls "drawcalls") }
 
 end Neatvi.Drive.ViSpec
